@@ -226,11 +226,22 @@ func (e *Env) Session(stream []byte) ([]byte, error) {
 	return e.SessionNet([][]byte{stream}, "eof")
 }
 
+// WriteLimit: when >= 0 the next SessionNet lets only that many reply lines (greeting included) through; the
+// server's later writes fail. Reset after the session.
+var WriteLimit = -1
+
 // ParseNet decodes a stream field: hex chunks separated by '~' (a pause longer than the idle timeout between
 // two chunks), optionally followed by "!idle" (the client stays silent at the end) or "!err" (the connection
 // breaks); a plain hex field is one chunk ended by EOF.
 func ParseNet(field string) ([][]byte, string) {
 	fin := "eof"
+	WriteLimit = -1
+	if i := strings.IndexByte(field, '^'); i >= 0 { // "^k": the server's writes fail after k reply lines
+		if n, err := strconv.Atoi(field[i+1:]); err == nil {
+			WriteLimit = n
+		}
+		field = field[:i]
+	}
 	if i := strings.IndexByte(field, '!'); i >= 0 {
 		fin, field = field[i+1:], field[:i]
 	}
@@ -261,6 +272,10 @@ func (e *Env) SessionNet(chunks [][]byte, fin string) ([]byte, error) {
 	}
 	stream := chunks[0]
 	client, server := NewBufConnPair()
+	if WriteLimit >= 0 {
+		client.FailPeerWritesAfter(WriteLimit)
+		WriteLimit = -1
+	}
 	done := make(chan struct{})
 	go func() {
 		defer close(done)
